@@ -423,6 +423,50 @@ func cmdCheck(args []string) int {
 			}
 		}
 	}
+	// a lemma that is used as an axiom must itself be proved: units (functions and other lemmas)
+	// that use an unproved lemma are conditional (to a fixpoint over lemma-uses-lemma)
+	{
+		failed := map[string]string{} // lemma name -> failing obligation
+		for changed := true; changed; {
+			changed = false
+			for _, r := range results {
+				if !strings.HasPrefix(r.Key, "lemma ") {
+					continue
+				}
+				name := strings.TrimPrefix(r.Key, "lemma ")
+				if _, ok := failed[name]; ok {
+					continue
+				}
+				for _, o := range r.Obls {
+					if !o.ExpectSat && o.Status != "unsat" {
+						failed[name] = o.Name
+						changed = true
+						break
+					}
+				}
+			}
+			for _, r := range results {
+				blocked := ""
+				for _, a := range r.AxiomNames {
+					if strings.HasPrefix(a, "lemma.") {
+						if by, ok := failed[strings.TrimPrefix(a, "lemma.")]; ok {
+							blocked = by
+						}
+					}
+				}
+				if blocked == "" {
+					continue
+				}
+				for _, o := range r.Obls {
+					if !o.ExpectSat && o.Status == "unsat" {
+						o.Status = "conditional"
+						o.Raw = map[string]string{"note": "uses a lemma that is not proved: " + blocked}
+						changed = true
+					}
+				}
+			}
+		}
+	}
 	rep := &Report{Prop: *prop, Tier: *tier, Seed: seed, Verif: *verif, Repo: *repo, Config: pc, BySolver: map[string]int{}, ByKind: map[string]int{}}
 	exit := 0
 	var outside []string
